@@ -63,7 +63,7 @@ def arrayLen (n : Nat) : Bytes := beI 4 n
 def compactArrayLen (n : Nat) : Bytes := uvarint (1 + n)
 
 /-- `uvar32(l int32) uint32 { return 1 + uint32(l) }` -/
-def uvar32 (l : Int) : Nat := ((1 + l) % 4294967296).toNat
+def uvar32 (l : Int) : Nat := (1 + l).toNat   -- no overflow: `l` is a non-negative length below 2^31
 /-- `uvarlen(l int) int32` -/
 def uvarlen (l : Nat) : Int := uvarintLen (uvar32 l)
 
@@ -337,15 +337,14 @@ def compressStep (comp : Option Compressor) (version : Int) (toCompress : Bytes)
       else (toCompress, 0, 0)
     | (none, _) => (toCompress, 0, 0)
 
-/-- `seqRecBatch.appendTo` (what is appended to `in`) -/
-def batchAppendTo (crc32c : Bytes → Nat) (comp : Option Compressor) (b : PartBatch) (version : Int)
+/-- the record batch proper as `seqRecBatch.appendTo` leaves it (base offset … records), after the
+in-place fix-ups of `batchLen`, attributes and CRC -/
+def batchBody (crc32c : Bytes → Nat) (comp : Option Compressor) (b : PartBatch) (version : Int)
     (producerID producerEpoch : Int) (transactional : Bool) : Bytes :=
-  let flexible := decide (version ≥ 9)
   let nullableBytesLen := b.batch.wireLength - 4
   let batchLen := nullableBytesLen - 8 - 4
   let toCompress := recordsFrom 0 b.batch.records
   let (payload, savings, codec) := compressStep comp version toCompress
-  let nullableBytesLen := nullableBytesLen - savings
   let batchLen := batchLen - savings
   let attrs : Nat := (if transactional then 16 else 0) ||| codec
   let seq := if producerID < 0 then 0 else b.seq
@@ -353,13 +352,24 @@ def batchAppendTo (crc32c : Bytes → Nat) (comp : Option Compressor) (b : PartB
   let crcd := beI 2 attrs ++ beI 4 (n - 1) ++ beI 8 b.batch.firstTimestamp
     ++ beI 8 (b.batch.firstTimestamp + b.batch.maxTimestampDelta)
     ++ beI 8 producerID ++ beI 2 producerEpoch ++ beI 4 seq ++ beI 4 n ++ payload
-  let batch := beI 8 0 ++ beI 4 batchLen ++ beI 4 (-1) ++ [2#8] ++ beI 4 (crc32c crcd) ++ crcd
-  if flexible then
+  beI 8 0 ++ beI 4 batchLen ++ beI 4 (-1) ++ [2#8] ++ beI 4 (crc32c crcd) ++ crcd
+
+/-- bytes saved by the compression step for this batch -/
+def savingsOf (comp : Option Compressor) (b : PartBatch) (version : Int) : Nat :=
+  (compressStep comp version (recordsFrom 0 b.batch.records)).2.1
+
+/-- `seqRecBatch.appendTo` (what is appended to `in`) -/
+def batchAppendTo (crc32c : Bytes → Nat) (comp : Option Compressor) (b : PartBatch) (version : Int)
+    (producerID producerEpoch : Int) (transactional : Bool) : Bytes :=
+  let batch := batchBody crc32c comp b version producerID producerEpoch transactional
+  if version ≥ 9 then
     -- the prefix is first written for `b.batchLength()`; the deferred function rewrites it (shifting the
     -- batch down when the prefix got shorter) when the batch is not that long
     if (batch.length : Int) = batchLength b.batch then uvarint (uvar32 (batchLength b.batch)) ++ batch
     else uvarint (uvar32 batch.length) ++ batch
-  else beI 4 nullableBytesLen ++ batch
+  else
+    -- NULLABLE_BYTES length from the accounting (`b.wireLength - 4`), lowered by the compression savings
+    beI 4 (b.batch.wireLength - 4 - savingsOf comp b version) ++ batch
 
 /-- `appendMessageTo` -/
 def appendMessageTo (crc32 : Bytes → Nat) (version : Int) (attributes : Nat) (offset timestamp : Int)
